@@ -16,6 +16,7 @@ import time
 VERIF = os.path.dirname(os.path.dirname(os.path.abspath(__file__)))
 REPO = os.environ.get("VERIF_REPO", "/repo")
 CACHE = os.environ.get("VERIF_CACHE", os.path.join(VERIF, ".cache"))
+OUT = os.environ.get("VERIF_OUT", VERIF)     # where evidence/ and reports/ are written (redirected for scratch-variant runs)
 FACTGEN = os.path.join(VERIF, "factgen", "target", "release", "factgen")
 
 LIB_CRATES = ["rbx_types", "rbx_reflection", "rbx_reflection_database", "rbx_dom_weak", "rbx_binary", "rbx_xml"]
@@ -559,8 +560,8 @@ class Checker:
                 seen_known.append(v)
             else:
                 new.append(v)
-        os.makedirs(os.path.join(VERIF, "reports"), exist_ok=True)
-        os.makedirs(os.path.join(VERIF, "evidence"), exist_ok=True)
+        os.makedirs(os.path.join(OUT, "reports"), exist_ok=True)
+        os.makedirs(os.path.join(OUT, "evidence"), exist_ok=True)
         printed = set()
         for v in seen_known:
             if v["key"] in printed:
@@ -568,7 +569,7 @@ class Checker:
             printed.add(v["key"])
             print(f"KNOWN-FINDING: property={self.prop} {open_keys[v['key']]['what']} [{v['key']}] at {v['where']}")
         for i, v in enumerate(new):
-            rp = os.path.join(VERIF, "reports", f"{self.prop}-{i}.json")
+            rp = os.path.join(OUT, "reports", f"{self.prop}-{i}.json")
             with open(rp, "w") as fh:
                 json.dump({"property": self.prop, **v, "repo": REPO, "tier": self.tier}, fh, indent=1)
             print(f"  {v['rule']}: {v['msg']}  at {v['where']}   key={v['key']}")
@@ -602,7 +603,7 @@ class Checker:
             "wall_s": round(time.time() - self.t0, 2),
             "violations": len(new),
         }
-        with open(os.path.join(VERIF, "evidence", f"{self.prop}.json"), "w") as fh:
+        with open(os.path.join(OUT, "evidence", f"{self.prop}.json"), "w") as fh:
             json.dump(ev, fh, indent=1, sort_keys=True)
         status = "FAIL" if new else "ok"
         print(f"[{self.prop}] {status}: {discharged}/{obligations} rule instances conform, {len(printed)} known finding(s), {len(new)} new violation(s), {ev['wall_s']}s")
